@@ -134,8 +134,9 @@ func Changes(cmd CommandRunner, baseBranch string, filter PathFilter) ([]*FileCh
 			)
 			change.Commits = append(change.Commits, prev.Commits...)
 			change.Path.Before = prev.Path.Before
-			// Remove any changes for "BEFORE" path we might already have
-			changes = changesWithout(changes, srcPath)
+			// Remove the change we are continuing; older changes that ended with
+			// this path being deleted describe a different file and must stay.
+			changes = changesWithout(changes, prev)
 		} else {
 			slog.Debug("No previous change found")
 			switch change.Status {
@@ -246,16 +247,19 @@ func Changes(cmd CommandRunner, baseBranch string, filter PathFilter) ([]*FileCh
 	return changes, nil
 }
 
-func changesWithout(changes []*FileChange, fpath string) []*FileChange {
+func changesWithout(changes []*FileChange, change *FileChange) []*FileChange {
 	return slices.DeleteFunc(changes, func(e *FileChange) bool {
-		return e.Path.After.Name == fpath
+		return e == change
 	})
 }
 
+// getChangeByPath returns the most recent change that left a file at fpath.
+// There can be more than one when a path was deleted and another file was
+// later renamed onto it: only the latest one describes the file that is there now.
 func getChangeByPath(changes []*FileChange, fpath string) *FileChange {
-	for _, c := range changes {
-		if c.Path.After.Name == fpath {
-			return c
+	for i := len(changes) - 1; i >= 0; i-- {
+		if changes[i].Path.After.Name == fpath {
+			return changes[i]
 		}
 	}
 	return nil
